@@ -19,17 +19,11 @@ pub fn run<S: InterpreterTrait>(interpreter: &mut S) -> Result<(), RuntimeError>
 }
 
 fn do_mid(s: &str, start: usize, opt_length: Option<usize>) -> Result<String, RuntimeError> {
-    let start_index: usize = start - 1;
+    // positions and lengths count characters, not UTF-8 bytes
+    let rest = s.chars().skip(start - 1);
     match opt_length {
-        Some(length) => {
-            let end: usize = if start_index + length > s.len() {
-                s.len()
-            } else {
-                start_index + length
-            };
-            Ok(s.get(start_index..end).unwrap_or_default().to_string())
-        }
-        None => Ok(s.get(start_index..).unwrap_or_default().to_string()),
+        Some(length) => Ok(rest.take(length).collect()),
+        None => Ok(rest.collect()),
     }
 }
 
